@@ -1,5 +1,7 @@
 pub mod c02;
 pub mod c04;
+pub mod c06;
+pub mod c07;
 pub mod c11;
 pub mod c20;
 pub mod tiered_hist;
@@ -17,6 +19,8 @@ pub struct Entry {
 pub const REGISTRY: &[Entry] = &[
     Entry { id: "C02", level: "exploration", main: c02::main, replay: c02::replay },
     Entry { id: "C04", level: "exploration", main: c04::main, replay: c04::replay },
+    Entry { id: "C06", level: "exploration", main: c06::main, replay: c06::replay },
+    Entry { id: "C07", level: "exploration", main: c07::main, replay: c07::replay },
     Entry { id: "C20", level: "exploration", main: c20::main, replay: c20::replay },
     Entry { id: "C11", level: "exploration", main: c11::main, replay: c11::replay },
 ];
